@@ -8,7 +8,7 @@ def check(tier, seed):
     rep = core.Report('C04', tier, seed)
     rng = random.Random(seed)
     b = core.prepare('C04', 'Fips204/Props/C04.lean')
-    if b.cargo_errs or not b.model_ok:
+    if b.cargo_errs:
         return core.finish(rep, b, 'proof', {}, ['build failed'])
     n = 400 if tier == 'thorough' else 24
     cases = []
